@@ -264,3 +264,49 @@ def unit_c19_table():
                               replay={"verdict": "confirmed", "input": "Integer rules -5...5 (Transact-SQL), 0...2^40 (ANSI), 5... (any)", "expected": "types able to store the limits / a statement", "observed": "; ".join(w)}))
         return res
     return NativeUnit("C19.table", "bounded boundary table of integer column types, statement shape, and the witnesses of recorded finding K-8", ["C19"], run, kind="bounded")
+
+
+# ---------------------------------------------------------------- the other sql_ansi_type methods and the shape assertion
+def unit_other_sql_ansi_types():
+    OI = sort_of(Opt(INT))
+    def make(ctx):
+        def setup_text(ex, st):
+            hi = fresh(Opt(INT), "upper")[0]
+            rng = Ref("Range"); st.heap[rng.oid] = {"_lower_limit": fresh(Opt(INT), "lower")[0], "_upper_limit": hi, "_items": Opaque()}
+            self = Ref("TextFieldFormat"); st.heap[self.oid] = {"_length": rng}
+            st.frames[-1].env["self"] = self; st.ghost.update({"hi": hi})
+        def c_text(ex, st):
+            r = st.ghost["__result__"]
+            if not (isinstance(r, tuple) and len(r) == 2 and r[0] == "varchar"): return Sym(BOOL, z3.BoolVal(False))
+            return Sym(BOOL, lift_to(Opt(INT), r[1]) == G(st, "hi"))
+        def setup_dec(ex, st):
+            p = fresh(INT, "precision")[0]; s = fresh(INT, "scale")[0]
+            self = Ref("DecimalFieldFormat"); st.heap[self.oid] = {"_precision": p, "_scale": s}
+            st.frames[-1].env["self"] = self; st.ghost.update({"p": p, "s": s})
+        def c_dec(ex, st):
+            r = st.ghost["__result__"]
+            if not (isinstance(r, tuple) and len(r) == 3 and r[0] == "decimal"): return Sym(BOOL, z3.BoolVal(False))
+            return Sym(BOOL, z3.And(lift(r[1]).z == G(st, "s"), lift(r[2]).z == G(st, "p")))
+        def setup_date(ex, st):
+            self = Ref("DateTimeFieldFormat"); st.heap[self.oid] = {}; st.frames[-1].env["self"] = self
+        c_date = lambda ex, st: Sym(BOOL, z3.BoolVal(st.ghost["__result__"] == ("date",)))
+        return [{"contract": Contract("fields.AbstractFieldFormat.sql_ansi_type", setup_text, returns=[Clause(c_text, "a-text-like-field-is-a-varchar-of-the-length's-upper-limit", props=["C19"])], raises={}, expect=["return"], modifies=[], raises_only_props=["C19", "C10"]), "label": "text"},
+                {"contract": Contract("fields.DecimalFieldFormat.sql_ansi_type", setup_dec, returns=[Clause(c_dec, "a-decimal-field-reports-('decimal',-scale,-precision)-of-its-rule", props=["C19"])], raises={}, expect=["return"], modifies=[], raises_only_props=["C19", "C10"]), "label": "decimal"},
+                {"contract": Contract("fields.DateTimeFieldFormat.sql_ansi_type", setup_date, returns=[Clause(c_date, "a-date-field-is-a-date-column", props=["C19"])], raises={}, expect=["return"], modifies=[], raises_only_props=["C19", "C10"]), "label": "date"}]
+    return ProofUnit("fields.sql_ansi_type", "sql_ansi_type of text-like, Decimal and DateTime fields", ["C19"], make, None)
+
+
+def unit_assert_is_valid_ansi_type():
+    """the shapes produced by the four sql_ansi_type methods never fail the assertions of assert_is_valid_ansi_type"""
+    def mk(label, build):
+        def setup(ex, st):
+            st.frames[-1].env["ansi_type"] = build(ex, st)
+        c = Contract("sql.assert_is_valid_ansi_type", setup, returns=[], raises={}, loops={0: Unroll(3)}, expect=["return"], raises_only_props=["C19", "C10"])
+        return {"contract": c, "label": label}
+    def nonneg(st, hint):
+        v = fresh(INT, hint)[0]; st.pc.append(v.z >= 0); return v
+    def make(ctx):
+        return [mk("('varchar', n)", lambda ex, st: ("varchar", nonneg(st, "n"))), mk("('varchar', None)", lambda ex, st: ("varchar", None)),
+                mk("('int', m)", lambda ex, st: ("int", nonneg(st, "m"))), mk("('date',)", lambda ex, st: ("date",)),
+                mk("('decimal', s, p)", lambda ex, st: ("decimal", nonneg(st, "s"), nonneg(st, "p")))]
+    return ProofUnit("sql.assert_is_valid_ansi_type", "assert_is_valid_ansi_type: no assertion fails for the type tuples the built-in fields produce (non-negative sizes)", ["C19", "C10"], make, None)
